@@ -12,6 +12,11 @@ def main():
         print("usage: check.py Cxx [--tier quick|thorough] [--seed N] [--replay file]")
         return 2
     prop = sys.argv[1].upper()
+    if "--no-lean" in sys.argv and "VERIF_EVIDENCE_DIR" not in os.environ:
+        # a development run without the proof obligations must never overwrite the committed evidence record
+        os.environ["VERIF_EVIDENCE_DIR"] = os.path.join(os.path.dirname(os.path.dirname(os.path.abspath(__file__))),
+                                                        "build", "evidence-nolean")
+        os.makedirs(os.environ["VERIF_EVIDENCE_DIR"], exist_ok=True)
     mod = importlib.import_module("props.%s" % prop.lower())
     return mod.main(sys.argv[2:])
 
